@@ -157,6 +157,15 @@ def mk_bin(op, ty, a, b):
                 return mk_bin("sub", ty, C(bits, 0), mk_bin("mul", ty, a, nb))
     if op == "or" and bits == 128:
         for lo, hi in ((a, b), (b, a)):
+            # high word given as the sign word in ite form: (X < 0 ? -2^64 : 0) | zext(sext64(X))  ==  sext128(X)
+            if lo[0] == "cast" and lo[1] == "zext" and lo[2] == "i64" and hi[0] == "ite" and hi[2] == C(128, -(1 << 64)) and hi[3] == C(128, 0) \
+                    and hi[1][0] == "icmp" and hi[1][1] == "slt" and is_c(hi[1][4]) and hi[1][4][2] == 0:
+                X, L = hi[1][3], lo[4]
+                if L == X and _bits(hi[1][2]) == 64:
+                    return mk_cast("sext", "i64", X, "i128")
+                if L[0] == "cast" and L[1] == "sext" and L[4] == X:
+                    return mk_cast("sext", L[2], X, "i128")
+        for lo, hi in ((a, b), (b, a)):
             if lo[0] == "cast" and lo[1] == "zext" and lo[2] == "i64" and hi[0] == "op" and hi[1] == "shl" and hi[4] == C(128, 64) \
                     and hi[3][0] == "cast" and hi[3][1] == "zext" and hi[3][2] == "i64":
                 L, H = lo[4], hi[3][4]
